@@ -79,6 +79,29 @@ class CHECK(Check):
             yield case
 
     @staticmethod
+    def alt_text(case, hv):
+        """a history line in which every date field with a format list shows its value in the LAST declared format (a text an
+        earlier format may not parse): what a field read before must not influence what it reads or writes next.
+        Built from a fresh Line (no history), identically for the implementation and the model; None when not applicable."""
+        from cfinterface.components.line import Line
+        fs = case["fields"]
+        if not any(fd["k"] == "date" and len(fd["formats"]) > 1 for fd in fs):
+            return None
+        try:
+            t = Line([fl.mk_field(fd) for fd in fs]).write([fl.py_value(v) for v in hv])
+        except OverflowError:
+            return None
+        for fd, v in zip(fs, hv):
+            if fd["k"] == "date" and len(fd["formats"]) > 1 and v is not None and v[0] == "date":
+                try:
+                    txt = datetime.datetime(*v[1]).strftime(fd["formats"][-1])
+                except ValueError:
+                    continue
+                if len(txt) <= fd["size"]:
+                    t = t[: fd["start"]] + txt.ljust(fd["size"]) + t[fd["start"] + fd["size"]:]
+        return t
+
+    @staticmethod
     def gen_setters(rng, fs):
         """a constructor configuration + setter sequence whose final configuration is (fs, no delimiter, TEXT)"""
         other = fl.gen_layout(rng, nmax=3)
@@ -126,6 +149,9 @@ class CHECK(Check):
         for hv in case.get("history", []):
             try:
                 line.read(line.write([fl.py_value(v) for v in hv]))
+                alt = self.alt_text(case, hv)
+                if alt is not None:
+                    line.read(alt)
             except OverflowError:
                 pass
         try:
@@ -160,6 +186,9 @@ class CHECK(Check):
         for hv in case.get("history", []):
             hvs = [fl.value_sx(v) for v in hv]
             pre += [[5, hvs], [9]]
+            alt = self.alt_text(case, hv)
+            if alt is not None:
+                pre += [[4, alt]]
         return [variant, ctor, pre + [[8, vals], [5, vals], [9], [10], [7]]]
 
     def model_obs(self, case, res):
